@@ -235,7 +235,9 @@ def run_check(check_id: str, tier: str, seed: int, workers: int | None = None) -
 
     wall = time.time() - t0
     meta = check.meta(tier) if hasattr(check, "meta") else {}
-    states = len(total.states) or len(total.outcomes)
+    # "states": explicit-state checks (STATEFUL = True) count distinct explored states/histories; the
+    # enumeration checks count distinct canonical (program, input, outcome) cases
+    states = len(total.states) if getattr(check, "STATEFUL", False) and total.states else len(total.outcomes)
     cov = {
         "states": max(states, 0),
         "transitions": total.evals,
@@ -243,6 +245,7 @@ def run_check(check_id: str, tier: str, seed: int, workers: int | None = None) -
         "evaluations": total.evals,
         "distinct_nontrivial": len(total.nontrivial) if total.nontrivial else len(total.outcomes),
         "distinct_outcomes": len(total.outcomes),
+        "explicit_states": len(total.states),
         "programs": total.programs,
         "rule": meta.get("rule", ""),
         "samples": total.samples[:12] or ["<no samples recorded>"],
